@@ -102,10 +102,10 @@ def run(res, tier, broken):
     for b in tb:
         broken.append({"kind": "T1-skeleton", **b})
     vs.campaign(res, broken, tier, "C19", "sc_sync", ["sc_sync.c"], scenario_params, validate,
-                sizes={"quick": (20, 3), "thorough": (200, 8), "search": (150, 6)})
+                sizes={"quick": (20, 3), "thorough": (200, 8), "search": (150, 6)}, reject_is_failure=vs.protocol_reject_is_failure)
     tr1 = _campaign_cov(res, "campaign_cond")
     vs.campaign(res, broken, tier, "C19pw", "sc_popwait", ["sc_popwait.c"], popwait_params, validate_popwait,
-                sizes={"quick": (14, 3), "thorough": (120, 8), "search": (100, 5)})
+                sizes={"quick": (14, 3), "thorough": (120, 8), "search": (100, 5)}, reject_is_failure=vs.protocol_reject_is_failure)
     tr2 = _campaign_cov(res, "campaign_popwait")
     res.cov["model_transitions"] = sorted(tr1 | tr2)
     res.cov["model_transitions_exercised"] = len(tr1 | tr2)
